@@ -87,6 +87,19 @@ class Chaos(SimAlgo):
         return True
 
 
+class SetTemp(SimAlgo):
+    """user algo that sets temp entries (e.g. temp['cash'] for Rebalance), optionally varying by date"""
+
+    def __call__(self, target):
+        t = self.sim.tindex(target.now)
+        for k, v in self.spec["set"].items():
+            if isinstance(v, list):
+                v = v[t % len(v)]
+            if v is not None:
+                target.temp[k] = v
+        return True
+
+
 class Wrap(SimAlgo):
     """oracle wrapper: snapshots inputs, calls the wrapped stock algo, hands both to a monitor"""
 
@@ -124,6 +137,8 @@ def build(bt, spec, sim):
         return (RunAlwaysSpy if spec.get("run_always") else Spy)(sim, spec)
     if a == "Chaos":
         return Chaos(sim, spec)
+    if a == "SetTemp":
+        return SetTemp(sim, spec)
     if a == "Wrap":
         return Wrap(sim, spec, build(bt, spec["inner"], sim))
     if a == "Or":
